@@ -5,6 +5,14 @@ import subprocess, time, re
 import z3
 
 
+CVC5_PRELUDE = """(define-fun bvumul_noovfl ((a (_ BitVec 64)) (b (_ BitVec 64))) Bool
+  (= ((_ extract 127 64) (bvmul ((_ zero_extend 64) a) ((_ zero_extend 64) b))) #x0000000000000000))
+(define-fun bvsmul_noovfl ((a (_ BitVec 64)) (b (_ BitVec 64))) Bool
+  (bvsle (bvmul ((_ sign_extend 64) a) ((_ sign_extend 64) b)) ((_ sign_extend 64) #x7fffffffffffffff)))
+(define-fun bvsmul_noudfl ((a (_ BitVec 64)) (b (_ BitVec 64))) Bool
+  (bvsge (bvmul ((_ sign_extend 64) a) ((_ sign_extend 64) b)) ((_ sign_extend 64) #x8000000000000000)))"""
+
+
 class Query:
     def __init__(self, name, assertions, expect="unsat", meta=None):
         self.name, self.assertions, self.expect, self.meta = name, assertions, expect, meta or {}
@@ -13,10 +21,50 @@ class Query:
         self.detail = ""
 
 
+def lower_noovfl(e, cache=None):
+    """replace z3's width-polymorphic bv{u,s}mul_noovfl / bvsmul_noudfl predicates by their definition over the
+    double-width product, so that every solver sees plain QF_BV (cvc5 1.0 has no such predicates)"""
+    cache = {} if cache is None else cache
+    k = e.get_id()
+    if k in cache:
+        return cache[k]
+    if not z3.is_app(e) or e.num_args() == 0:
+        cache[k] = e
+        return e
+    args = [lower_noovfl(a, cache) for a in e.children()]
+    dk = e.decl().kind()
+    if dk == z3.Z3_OP_BUMUL_NO_OVFL:
+        w = args[0].size()
+        r = z3.Extract(2 * w - 1, w, z3.ZeroExt(w, args[0]) * z3.ZeroExt(w, args[1])) == 0
+    elif dk == z3.Z3_OP_BSMUL_NO_OVFL:
+        w = args[0].size()
+        r = z3.SignExt(w, args[0]) * z3.SignExt(w, args[1]) <= z3.BitVecVal(2 ** (w - 1) - 1, 2 * w)
+    elif dk == z3.Z3_OP_BSMUL_NO_UDFL:
+        w = args[0].size()
+        r = z3.SignExt(w, args[0]) * z3.SignExt(w, args[1]) >= z3.BitVecVal(-(2 ** (w - 1)), 2 * w)
+    elif dk == z3.Z3_OP_BUDIV_I:
+        r = z3.UDiv(args[0], args[1])
+    elif dk == z3.Z3_OP_BUREM_I:
+        r = z3.URem(args[0], args[1])
+    elif dk == z3.Z3_OP_BSDIV_I:
+        r = args[0] / args[1]
+    elif dk == z3.Z3_OP_BSREM_I:
+        r = z3.SRem(args[0], args[1])
+    elif dk == z3.Z3_OP_BSMOD_I:
+        r = args[0] % args[1]
+    elif all(a.eq(b) for a, b in zip(args, e.children())):
+        r = e
+    else:
+        r = e.decl()(*args)
+    cache[k] = r
+    return r
+
+
 def to_smt2(assertions):
     s = z3.Solver()
+    cache = {}
     for a in assertions:
-        s.add(a)
+        s.add(lower_noovfl(a, cache) if z3.is_expr(a) else a)
     txt = s.to_smt2()
     # strip the trailing (check-sat); declarations stay
     return txt.replace("(check-sat)", "").strip()
@@ -52,7 +100,14 @@ def decide(queries, timeout=20, cross=True):
     if cross:
         solvers.append(("cvc5", ["cvc5", "--lang", "smt2", "--incremental", f"--tlimit-per={per_ms}"]))
     for nm, cmd in solvers:
-        out, err, dt = run_solver(cmd, script, 60 + timeout * max(1, len(queries)))
+        scr = script
+        if nm == "cvc5" and "mul_noovfl" in script or nm == "cvc5" and "mul_noudfl" in script:
+            scr = script.replace("(set-logic ALL)", "(set-logic ALL)\n" + CVC5_PRELUDE, 1)
+            for w in (8, 16, 32, 64):
+                pass
+            # z3 prints the predicates without a width; cvc5 needs monomorphic definitions: rewrite per use is not
+            # possible textually, so only the 64-bit forms (the ones the Rust code produces for u64/i64) are defined
+        out, err, dt = run_solver(cmd, scr, 60 + timeout * max(1, len(queries)))
         total += dt
         if err or out is None:
             outs[nm] = None
